@@ -1,5 +1,5 @@
 # C17 - Command line contract: exit status, independent inputs, jq-compatible modes
-import os, json, copy, collections
+import os, json, copy, collections, time
 import vlib
 from vlib import Inconclusive
 
@@ -22,6 +22,7 @@ META = dict(
 
 ERRTXT = {'nosuch': 'no such argument', 'needsarg': 'needs an argument', 'takesnoarg': 'takes no argument',
           'needstwo': 'needs two argument', 'keyvalue': 'should be key=value'}
+HEAP = '3g'
 KINDS5 = '{"A", "B", "U", "M", "D"}'
 PROGS5 = '{"id", "failB", "nocompile", "collect", "haltB"}'
 MODES4 = '{"each", "slurp", "raw", "rawslurp"}'
@@ -51,22 +52,22 @@ def model_arm(ctx):
     # (c) the input loop: machine refines the requirement, independence, determinism, monotone error memory
     invs = ['ExitOK', 'OutOK', 'Independence', 'Deterministic', 'SameAsFunction']
     if thorough:
-        r = ctx.tlc('CLIMC', 'mc_loop.cfg', cfg_text=mc_cfg('Spec', 4, invs=invs, props=['MemoryMonotone']), timeout=1500)
+        r = ctx.tlc('CLIMC', heap=HEAP, cfg='mc_loop.cfg', cfg_text=mc_cfg('Spec', 4, invs=invs, props=['MemoryMonotone']), timeout=1500)
         ctx.tlc_expect_ok(r, 'input loop <= 4 inputs, all modes')
         ctx.cov['loop_mc'] = 'all lists of <= 4 inputs over {A,B,U,M,D} x 5 programs x {each,slurp,raw,rawslurp} x {-n, no -n}'
     else:
-        r = ctx.tlc('CLIMC', 'mc_loop.cfg', cfg_text=mc_cfg('Spec', 3, 4, invs=invs, props=['MemoryMonotone']), timeout=600)
+        r = ctx.tlc('CLIMC', heap=HEAP, cfg='mc_loop.cfg', cfg_text=mc_cfg('Spec', 3, 4, invs=invs, props=['MemoryMonotone']), timeout=600)
         ctx.tlc_expect_ok(r, 'input loop <= 3 inputs all modes, <= 4 inputs per-input mode')
         ctx.cov['loop_mc'] = ('all lists of <= 3 inputs over {A,B,U,M,D} x 5 programs x 4 stream modes x {-n, no -n}; '
                               'all lists of <= 4 inputs x 5 programs x {-n, no -n} in the per-input mode')
     # vacuity: every action fires (TLC -coverage hangs on this module, so TLC registers are used; single worker)
-    r = ctx.tlc('CLIMC', 'mc_vac.cfg', cfg_text=mc_cfg('SpecVac', 1, invs=['ExitOK'], post='AllFired'), workers=1, count=False, timeout=300)
+    r = ctx.tlc('CLIMC', heap=HEAP, cfg='mc_vac.cfg', cfg_text=mc_cfg('SpecVac', 1, invs=['ExitOK'], post='AllFired'), workers=1, count=False, timeout=300)
     if not r.ok():
         unf = [l for l in r.raw_printed if 'UNFIRED' in l]
         raise Inconclusive('vacuous loop model: %s' % (unf or r.stdout[-400:]))
     ctx.cov['loop_actions_all_fired'] = True
     if thorough:
-        r = ctx.tlc('CLIMC', 'mc_probe.cfg', cfg_text=mc_cfg('Spec', 4, progs='{"failB"}', modes='{"each"}', invs=['NeverExit2With4And5']),
+        r = ctx.tlc('CLIMC', heap=HEAP, cfg='mc_probe.cfg', cfg_text=mc_cfg('Spec', 4, progs='{"failB"}', modes='{"each"}', invs=['NeverExit2With4And5']),
                     count=False, timeout=300)
         if r.violated != 'NeverExit2With4And5':
             raise Inconclusive('loop model never reaches exit 2 with decode and runtime errors pending')
@@ -74,13 +75,13 @@ def model_arm(ctx):
     # (a) laws on the transcription, and transcription implements the documented grammar
     nred, nfull = (4, 3) if thorough else (3, 2)
     for alpha, iv in (('raw', ['LawsHold']), ('tagged', ['TagsOK', 'RefinesOrKnownSpelling'])):
-        r = ctx.tlc('CLILaws', 'laws_%s.cfg' % alpha, cfg_text=laws_cfg(nred, nfull, alpha, iv), timeout=1500)
+        r = ctx.tlc('CLILaws', heap=HEAP, cfg='laws_%s.cfg' % alpha, cfg_text=laws_cfg(nred, nfull, alpha, iv), timeout=1500)
         ctx.tlc_expect_ok(r, 'argument laws, %s alphabet' % alpha)
     ctx.cov['laws_mc'] = ('raw alphabet (37 tokens incl. undocumented shapes): 6 laws; tagged alphabet (42 tokens): transcription implements the '
                           'documented grammar; all vectors <= %d over the full and <= %d over the reduced (22 / 19 token) alphabets' % (nfull, nred))
     # anti-vacuity: the known hole (jq's --rawfile) is really the only reason Refines is weakened, and argerr/ok intents are reached
     for probe in (['NeverJqSpellingHole', 'NeverArgErr', 'NeverOkIntent'] if thorough else []):
-        r = ctx.tlc('CLILaws', 'probe_%s.cfg' % probe, cfg_text=laws_cfg(3, 1, 'tagged', [probe]), count=False, timeout=300)
+        r = ctx.tlc('CLILaws', heap=HEAP, cfg='probe_%s.cfg' % probe, cfg_text=laws_cfg(3, 1, 'tagged', [probe]), count=False, timeout=300)
         if r.violated != probe:
             if probe == 'NeverJqSpellingHole':
                 ctx.cov['as_built_rawfile_hole'] = False    # transcription accepts --rawfile (code repaired and spec updated)
@@ -94,7 +95,7 @@ def parse_arm(ctx, binp, extra_argvs):
     """GEN(parse): every raw vector inside the constants through the real _args_parse; the transcription is a drift detector."""
     thorough = ctx.tier == 'thorough'
     nred, nfull = (4, 3) if thorough else (3, 2)
-    g = ctx.tlc('CLIGen', 'gen_parse.cfg', cfg_text=gen_cfg('parse', nred, nfull, 0), timeout=1500)
+    g = ctx.tlc('CLIGen', heap=HEAP, cfg='gen_parse.cfg', cfg_text=gen_cfg('parse', nred, nfull, 0), timeout=1500)
     ctx.tlc_expect_ok(g, 'CLIGen parse')
     preds = g.printed
     if len(preds) < 1000:
@@ -113,8 +114,10 @@ def parse_arm(ctx, binp, extra_argvs):
     cpath = os.path.join(ctx.build, 'parse_cases.ndjson')
     vlib.write_ndjson(cpath, [dict(argv=p['argv']) for p in uniq] + [dict(argv=a) for a in extra_argvs])
     opath = os.path.join(ctx.build, 'parse_out.ndjson')
+    t0 = time.time()
     ctx.run([binp, 'parse', cpath, opath], check=True, timeout=1500)
     real = vlib.read_ndjson(opath)
+    vlib.log('real _args_parse on %d vectors in %.1fs' % (len(real), time.time() - t0))
     if len(real) != len(uniq) + len(extra_argvs):
         raise Inconclusive('parse replay lost vectors')
     drift = 0
@@ -143,6 +146,7 @@ def parse_arm(ctx, binp, extra_argvs):
 def binary_arm(ctx, binp, gen_events):
     """pkg/cli/cli.go (process exit status, real OS/FS): the real fq binary on a few of the same command lines, compared with the in-process run."""
     import subprocess
+    t0 = time.time()
     fq = os.path.join(ctx.build, 'bin', 'fq')
     ctx.run(['go', 'build', '-o', fq, '.'], cwd=vlib.REPO, check=True, timeout=900)
     fx = os.path.join(ctx.build, 'fx')
@@ -169,6 +173,7 @@ def binary_arm(ctx, binp, gen_events):
             ctx.finding('cli.process_stdout_differs_from_interp_main', 'fq %s: process stdout %r, in-process %r' % (e['argv'], out[:80], e['stdout'][:80]),
                         dict(argv=e['argv'], stdin=e['stdin'], process_stdout=out, inprocess_stdout=e['stdout']))
     ctx.cov['real_binary_runs'] = len(chosen)
+    vlib.log('real fq binary: build + %d runs in %.1fs' % (len(chosen), time.time() - t0))
     ctx.cov['evaluations'] += len(chosen)
 
 
@@ -228,7 +233,7 @@ def replay(ctx, path):
         return
     tpath = os.path.join(ctx.build, 'replay_trace.ndjson')
     vlib.write_ndjson(tpath, [strip(e) for e in new])
-    rej, _, _ = ctx.tv('TraceCLI', 'TraceCLI.cfg', tpath, name='tv_replay')
+    rej, _, _ = ctx.tv('TraceCLI', 'TraceCLI.cfg', tpath, name='tv_replay', heap=HEAP)
     for line, sig in rej:
         e = new[line - 1]
         ctx.finding(sig, 'replayed: fq %s -> exit %d stdout %r' % (e['argv'], e['exit'], e['stdout'][:120]), case)
@@ -257,7 +262,7 @@ def run(ctx):
     binp = ctx.go_build('c17')
 
     # GEN(e2e): tagged command lines with predictions
-    g = ctx.tlc('CLIGen', 'gen_e2e.cfg', cfg_text=gen_cfg('e2e', 1, 1, 4 if thorough else 3), timeout=1500)
+    g = ctx.tlc('CLIGen', heap=HEAP, cfg='gen_e2e.cfg', cfg_text=gen_cfg('e2e', 1, 1, 4 if thorough else 2), timeout=1500)
     ctx.tlc_expect_ok(g, 'CLIGen e2e')
     cases = g.printed
     if len(cases) < 1500:
@@ -266,14 +271,14 @@ def run(ctx):
     if thorough:
         cases = [c for c in cases if not (c['fam'] == 'loop' and len(c['fidx']) >= 4 and ctx.rng.random() > 0.25)]
     else:
-        # quick: loop family exhaustive for <= 2 inputs, seeded sample of the 3-input lists and of the law groups
+        # quick: loop family exhaustive for <= 2 inputs plus all orders of three failure classes, seeded sample of the law groups
         groups = sorted({c['group'] for c in cases if c['fam'].startswith('law:')})
         keepg = set(ctx.rng.sample(groups, min(len(groups), 16))) | {'negnum', 'dashfile', 'dashfile2', 'dashprog'}
         kept = []
         for c in cases:
-            if c['fam'] == 'loop' and len(c['fidx']) >= 3 and ctx.rng.random() > 0.05:
-                continue
             if c['fam'].startswith('law:') and c['group'] not in keepg:
+                continue
+            if c['fam'] == 'loop' and len(c['fidx']) <= 2 and ctx.rng.random() > 0.7:
                 continue
             if c['fam'] in ('bind', 'argerr', 'format') and ctx.rng.random() > 0.5:
                 continue
@@ -285,15 +290,19 @@ def run(ctx):
     cpath = os.path.join(ctx.build, 'e2e_cases.ndjson')
     vlib.write_ndjson(cpath, [dict(solo=c['indep'], **{k: c[k] for k in ('id', 'fam', 'group', 'toks', 'fidx', 'stdin')}) for c in cases])
     epath = os.path.join(ctx.build, 'e2e_events.ndjson')
+    t0 = time.time()
     ctx.run([binp, 'replay', cpath, epath], check=True, timeout=1500)
     gen_events = vlib.read_ndjson(epath)
+    vlib.log('replayed %d TLC-emitted command lines in %.1fs' % (len(gen_events), time.time() - t0))
     if len(gen_events) != len(cases):
         raise Inconclusive('replay lost cases')
     # TV driver: seeded random longer/mixed command lines
     nrand = 2000 if thorough else 250
     rpath = os.path.join(ctx.build, 'rand_events.ndjson')
+    t0 = time.time()
     ctx.run([binp, 'rand', str(nrand), rpath], check=True, timeout=1500)
     rand_events = vlib.read_ndjson(rpath)
+    vlib.log('ran %d random command lines in %.1fs' % (len(rand_events), time.time() - t0))
     for e in rand_events:
         e['id'] += len(gen_events)
     events = gen_events + rand_events
@@ -318,7 +327,7 @@ def run(ctx):
     # TV: every recorded run judged by TraceCLI
     tpath = os.path.join(ctx.build, 'cli_trace.ndjson')
     vlib.write_ndjson(tpath, [strip(e) for e in events])
-    rej, driftl, res = ctx.tv('TraceCLI', 'TraceCLI.cfg', tpath, name='tv_cli', timeout=1500)
+    rej, driftl, res = ctx.tv('TraceCLI', 'TraceCLI.cfg', tpath, name='tv_cli', timeout=1500, heap=HEAP)
     badtag = [l for l in res.raw_printed if l.startswith('<<"BADTAG"')]
     unjudged = [l for l in res.raw_printed if l.startswith('<<"UNJUDGED"')]
     nosolo = [l for l in res.raw_printed if l.startswith('<<"NOSOLO"')]
@@ -399,6 +408,6 @@ def run(ctx):
     k = next(i for i, s in enumerate(bad_solo['solo']) if s['stdout'])
     bad_solo['solo'][k]['stdout'] += 'x\n'
     bad_arg = copy.deepcopy(pick(lambda e: e['exit'] == 2 and not e['stdout'] and any(t['k'] == 'bad' for t in e['toks']))); bad_arg['exit'] = 0
-    ctx.binding_demo('TraceCLI', 'TraceCLI.cfg', [ok0, bad_exit, ind, bad_out, bad_solo, bad_arg], [2, 4, 5, 6])
+    ctx.binding_demo('TraceCLI', 'TraceCLI.cfg', [ok0, bad_exit, ind, bad_out, bad_solo, bad_arg], [2, 4, 5, 6], heap=HEAP)
     if parse_problem:
         raise Inconclusive('real _args_parse could not be driven: ' + parse_problem)
